@@ -14,7 +14,7 @@ import xml.etree.ElementTree as ET
 from mc import core, impl, explore, structcheck
 from mc.ref import xsd as R
 
-ALPHABET = ['<', '>', '&', '"', "'", ' ', '\t', '\n', ']]>', 'é', '♭', '\U0001d11e', ' ', 'a']
+ALPHABET = ['<', '>', '&', '"', "'", ' ', '\t', '\n', ']]>', '\x85', '\u2028', 'é', '♭', '\U0001d11e', ' ', 'a']
 MAXLEN = {'quick': 2, 'thorough': 3}
 BFS_BUDGET = {'quick': 1500, 'thorough': 25000}
 CHUNK = 8
